@@ -149,28 +149,9 @@ class C41(Check):
                 pass
         return None
 
-    def judge(self, case):
-        if self.drv is None:
-            self.setup_worker("quick")
-        if th.uses_sieve(case) and not self.sieve_allowed():
-            # replayed / enumerated case with PrimePi / Primorial nodes while the known finding is active
-            self.skip("known:sieve_not_thread_safe")
-            return
-        text, P, touched = th.compile_case(case)
-        hot = th.shared_hot(touched)
-        T = len(case["threads"])
-        try:
-            r = self.run_tsan(text)
-        except DriverTimeout:
-            self.skip("timeout")
-            return
-        self.count()
-        self.cls("threads:%d" % T)
-        if th.uses_sieve(case):
-            self.cls("pool_has_primepi_or_primorial")
-        for lst in case["threads"]:
-            for ins in lst:
-                self.cls("op:" + ins["op"])
+    REPEAT_ON_REPLAY = 150
+
+    def oracle(self, r, P, T, text):
         # (b) thread results = sequential re-execution
         for t in range(T):
             if r["thr"][t] != r["seq"][t]:
@@ -178,9 +159,6 @@ class C41(Check):
                 raise Violation("thread %d statement %d: concurrent result differs from the sequential re-execution" % (t, k),
                                 {"concurrent": r["thr"][t][k] if k >= 0 else r["thr"][t],
                                  "sequential": r["seq"][t][k] if k >= 0 else r["seq"][t], "request": text[:4000]})
-            for x in r["thr"][t]:
-                if isinstance(x, dict) and "exc" in x:
-                    self.skip("stmt:" + x["exc"])
         # (c) pool unchanged
         if r["pool0"] != r["pool1"]:
             k = next(i for i in range(P) if r["pool0"][i] != r["pool1"][i])
@@ -193,6 +171,47 @@ class C41(Check):
             k = next(i for i in range(P) if r["obs"][i] != r["obs2"][i] or not r["same"][i])
             raise Violation("pool element %d: str/hash/eq after the concurrent phase differ from a freshly built pool" % k,
                             {"after": r["obs"][k], "fresh": r["obs2"][k], "eq": r["same"][k], "request": text[:4000]})
+
+    def judge(self, case):
+        if self.drv is None:
+            self.setup_worker("quick")
+        if th.uses_sieve(case) and not self.sieve_allowed():
+            # replayed / enumerated case with PrimePi / Primorial nodes while the known finding is active
+            self.skip("known:sieve_not_thread_safe")
+            return
+        text, P, touched = th.compile_case(case)
+        hot = th.shared_hot(touched)
+        T = len(case["threads"])
+        # A schedule-dependent failure (lost update, use after free, wrong result) does not recur on every
+        # execution, but the engine confirms a violation by re-judging the case three times.  A case that has
+        # failed once is therefore marked "repeat": N (in place - the marked case is what reaches the replay
+        # file), and a marked case is executed up to N times; any failing execution is a violation.
+        reps = max(1, int(case.get("repeat", 1)))
+        r = None
+        for attempt in range(reps):
+            try:
+                r = self.run_tsan(text)
+                self.oracle(r, P, T, text)
+            except DriverTimeout:
+                self.skip("timeout")
+                return
+            except Violation as v:
+                if "repeat" not in case:
+                    case["repeat"] = self.REPEAT_ON_REPLAY
+                if reps > 1:
+                    v.msg += " (execution %d of up to %d)" % (attempt + 1, reps)
+                raise
+        self.count()
+        self.cls("threads:%d" % T)
+        if th.uses_sieve(case):
+            self.cls("pool_has_primepi_or_primorial")
+        for lst in case["threads"]:
+            for ins in lst:
+                self.cls("op:" + ins["op"])
+        for t in range(T):
+            for x in r["thr"][t]:
+                if isinstance(x, dict) and "exc" in x:
+                    self.skip("stmt:" + x["exc"])
         if hot:
             self.nontriv(text)
             self.cls("nontrivial")
